@@ -105,8 +105,12 @@ func runScript(t *testing.T, si *streamInst, c ctor, script []byte) (writes, bad
 				if err == nil {
 					t.Fatalf("%s[%s]: Write(%x) accepted inadmissible input", si.name, c.name, data)
 				}
-				h.Reset() // after an error only Reset is assumed to restore a defined state
-				state = append([]byte{}, si.iv...)
+				// the stream continues: the model keeps what was accepted before the refused block
+				st, wn := si.refused(state, data, c.le)
+				if n != wn {
+					t.Fatalf("%s[%s]: refused Write(%x) returned n=%d, expected %d", si.name, c.name, data, n, wn)
+				}
+				state = st
 			}
 		case 2:
 			k := take(1)
